@@ -43,6 +43,9 @@ pub struct GenCfg {
     pub hostile_text: bool,
     /// equal item values inside one list and across lists (hash-order sensitive: C03 only)
     pub list_ties: bool,
+    /// constants defined through earlier constants, two levels deep (C03 only: the compiler does not
+    /// resolve them, the story prints defaults - but it must do so identically for every compilation)
+    pub const_chains: bool,
     /// prefix of every identifier (several generated programs can be merged into one: C10)
     pub prefix: String,
     /// TURNS_SINCE in conditions (the turn index is shared by all flows)
@@ -81,6 +84,7 @@ impl GenCfg {
             external_heavy: false,
             hostile_text: false,
             list_ties: false,
+            const_chains: false,
             prefix: String::new(),
             turns: true,
             fixed: false,
@@ -840,6 +844,15 @@ pub fn render(rng: &mut Rng, cfg: &GenCfg) -> String {
             let v = g.rng.range(1, 9);
             g.line(0, &format!("CONST {c} = {v}"));
             g.consts.push(c);
+        }
+        if g.cfg.const_chains && g.rng.chance(1, 2) {
+            let p = g.cfg.prefix.clone();
+            g.line(0, &format!("CONST {p}CKb = {p}CK0 + 1"));
+            g.line(0, &format!("CONST {p}CKc = {p}CKb * 2"));
+            g.line(0, &format!("CONST {p}CKd = {p}CKc + {p}CKb"));
+            for c in ["CKb", "CKc", "CKd"] {
+                g.consts.push(format!("{p}{c}"));
+            }
         }
     }
     if g.cfg.lists {
